@@ -16,11 +16,15 @@ def run(tier):
             conds.append(Cond("h_tree.py", "bookkeeping", to, twin="reach" if (op0 in (5, 9, 11) and shape == 0) else None,
                               path_timeout=to / 2, env=dict({"H_OP0": str(op0), "H_SHAPE": str(shape), "H_OPS": "2" if q else "3"},
                                                             **({"H_MAXARG": "4", "H_LATER": "0,1,2,3,6,7,11,13"} if q else {}))))
+    # constraint-driven repair must leave the individual it repairs untouched, too (inputs and outputs of the
+    # repair pipeline are checked for consistent parent links / sizes / hashes)
+    for spec in ("rep2", "range"):
+        conds.append(Cond("h_repair.py", "stays_in_grammar", to, path_timeout=to / 2, env={"H_SPEC": spec, "H_MODE": "repair2", "H_CHOICES": "8"}))
     run.run_conditions(conds, conformance_harnesses=["h_tree.py"])
     run.encoded = ["DerivationTree.add_child/set_children/symbol.setter/sender.setter/recipient.setter/invalidate_hash/__hash__/__eq__/"
                    "size/deepcopy/__getitem__/split_end/prefix/replace/replace_multiple/get_choices_path/find_all_nodes/flatten/value",
                    "SliceTree", "RuleSearch/ItemSearch/AttributeSearch/DescendantAttributeSearch.find",
-                   "SimpleSubtreeCrossover.crossover", "SimpleMutation.mutate", "Grammar.fuzz (mutation)", "TreeValue.__hash__/__eq__"]
+                   "SimpleSubtreeCrossover.crossover", "SimpleMutation.mutate", "Grammar.fuzz (mutation)", "RepetitionBoundsSuggestion.get_replacements/_delete_repetitions/_insert_repetitions + fix_individual (input individual unchanged)", "TreeValue.__hash__/__eq__"]
     run.extra["source_sha256_16"] = source_fingerprint(FILES)
     run.bounds = {"initial trees": "3 shapes (<= 7 nodes; one with sender, one mixing 'x' / b'x' / bit leaves)",
                   "operations": "16 codes: add_child, set_children, symbol=, sender=, recipient=, deepcopy, slicing/indexing, selector searches, "
